@@ -699,7 +699,7 @@ impl Prop for P {
         "generated workloads (2D render, 3D render with small tile lists so that many root tiles exist, or an octree mesh \
          build) x backend x {no pool, a custom rayon pool of 1..=16 threads} x a seeded perturbation plan executed at every cancellation \
          poll through the cfg(fidget_verif) hook (yield / 50-500 us delay) x a cancel plan {never, before start, exactly at \
-         poll k (token set by the polling thread itself, deterministic), from another thread after 0-3 ms}. Oracle: the \
+         poll k (token set by the polling thread itself, deterministic), from another thread after 0-3 ms}, each request made 1-5 times through clones of the token (a token that has been set must read as set). Oracle: the \
          sequential no-pool result is the reference; never cancelled => Some and identical (images bit-for-bit, followed by the \
          images of every deterministic post-processing effect run under the same pool or none — to_rgba_bitmap, to_debug_bitmap, \
          to_rgba_distance, denoise_normals, apply_shading without SSAO — and Image::apply_effect checked against its definition \
